@@ -81,6 +81,13 @@ func (man *chunkManager) OnChunkInputRecovered(chunk base.LogChunk) {
 	man.operator.OnChunkRecovered(chunk)
 }
 
+// OnChunksSkipped accounts chunk files that are left on disk at startup because the queue is full
+func (man *chunkManager) OnChunksSkipped(chunks []base.LogChunk) {
+	for _, chunk := range chunks {
+		man.operator.OnChunkRecovered(chunk)
+	}
+}
+
 func (man *chunkManager) OnChunkConsumed(chunk base.LogChunk) {
 	man.operator.RemoveChunk(chunk)
 	man.metrics.pendingChunks.Dec()
